@@ -18,7 +18,12 @@ PLAN = dict(
                     "rejection of a spec-typed program = VIOL rejects-well-typed, acceptance of a spec-rejected program = VIOL accepts-ill-typed:<class>, "
                     "accepted mutants that the spec types are SKIPped; on accept all annotations present and the checked definitions erase to the parsed ones "
                     "up to clause order. theorems: see Props/C15.v (soundness refuted by witnesses confirmed on the real checker; soundness and completeness proved "
-                    "on the fragment without type parameters; regression statements for the instance-order defect fixed by d524b1f; annotation/erasure, rejection of mutation classes by the specification for all programs and sites)",
+                    "on the fragment without type parameters; regression statements for the instance-order defect fixed by d524b1f; annotation/erasure, rejection of mutation classes by the specification for all programs and sites). "
+                    "round 2 (polymorphic fragment): soundness under the boolean guards prog_names_ok (identifier-like names; tested on every compared input: BAD otherwise) and decl_types_wf "
+                    "(complement of the known finding), completeness and exactness for all programs with identifier-like names; printed instance names injective; instance table: names distinct, every "
+                    "declaration an instantiated template, defs_closed proved and evaluated on the REAL output (VIOL class=output-not-closed), full closure refuted (corpus/fun/c15_unused_*.sc); "
+                    "a wrong number of type arguments rejected by the checker at every site (signature, let, destructor, case, constructor, new, Ty::check; declaration fields: spec rejects, checker refuted = known finding); "
+                    "tags dt-wf/dt-ill, closed-full/closed-part",
         assumptions=["sexp::dbg renders the parsed and checked programs faithfully (Debug output of the crates' own types)",
                      "the mutation operators are edits of the parsed AST (fun::syntax::program::Program), not of source text: programs the parser "
                      "could not produce (e.g. a clause of the wrong polarity) are not generated"],
